@@ -391,7 +391,6 @@ use super::*;
 pub broadcast axiom fn axiom_empty_struct_is_write_str(st: int, n: Seq<char>)
     ensures #[trigger] sfin(ts_start(st, n)) == wr(st, n);
 pub broadcast axiom fn axiom_empty_tuple_is_write_str(st: int, n: Seq<char>)
-    requires n.len() > 0,
     ensures #[trigger] tfin(tt_start(st, n)) == wr(st, n);
 }
 '''
